@@ -644,11 +644,20 @@ func sameSSAExpr(a, b ssa.Value, depth int) bool {
 // merged-view objects on the read path) and E3 (no package-level state) into a
 // report under another rule name: what a read returns is then a function of the
 // table bytes and the arguments only, never of earlier reads.
-func copyStateless(p *Program, r *Report, rule, what string) {
+func copyStateless(p *Program, r *Report, rule, what string, exclude ...string) {
 	r2 := newReport(r.Property, r.Tier, r.Seed)
 	checkEffects(p, r2)
 	for k, o := range r2.Obl {
 		if o.Rule != "E1" && o.Rule != "E3" {
+			continue
+		}
+		skip := false
+		for _, ex := range exclude {
+			if strings.Contains(k, ex) {
+				skip = true // state of an object this property does not read through
+			}
+		}
+		if skip {
 			continue
 		}
 		key := strings.TrimPrefix(strings.TrimPrefix(k, "E1 / "), "E3 / ")
